@@ -3,6 +3,7 @@
            Store/FsStore.v (fsstore over a POSIX file-system model; sharding from Gen/FromGo.v). *)
 Require Import IP.Base.Bytes IP.Base.GoSem IP.Gen.FromGo IP.Store.Storage IP.Store.FsStore.
 Require Import IP.Proofs.StoreBase IP.Proofs.StoreMem IP.Proofs.StoreFs IP.Proofs.StoreRefuted.
+Require Import IP.Proofs.StoreCrash IP.Proofs.StoreSeq IP.Proofs.StoreGood IP.Proofs.StoreFsRefine IP.Proofs.StoreUsable.
 From Coq Require Import List Bool.
 Import ListNotations.
 
@@ -74,6 +75,56 @@ Print Assumptions C17_shard_total.
 Theorem C17_b32_alphabet : forall s, Forall b32_alpha (b32enc s).
 Proof. exact b32enc_alpha. Qed.
 Print Assumptions C17_b32_alphabet.
+
+(* --- the file-system store refines the same finite map (has / get / get-stream / peek agree,
+       absent keys absent, distinct keys never alias), from the freshly initialised store, for every
+       history inside the quantifier whose keys the store can hold ([storable]: non-empty, escaped
+       form without '/', '.', NUL, at most 255 bytes).  ENOENT is the store's "not found" ([norm_obs]).
+       [enc_key] injective: the escaping function is (quirk off), or no escaping at all (quirk on).
+       2^254 bounds the model's counter-based staging names, nothing in the code. ----------------- *)
+Theorem C17_refines_fs : forall cfg,
+  path_ok (f_base cfg) -> forall ops,
+  (forall k k', enc_key cfg k = enc_key cfg k' -> k = k') ->
+  hist_ok (@Some (list N)) true spec_empty ops = true -> Forall (op_storable cfg) ops ->
+  (N.of_nat (length ops) < 2 ^ 254)%N ->
+  fs_obs cfg (fstate0 cfg) ops = spec_run (@Some (list N)) true spec_empty ops.
+Proof. exact fs_refines. Qed.
+Print Assumptions C17_refines_fs.
+
+(* with the escaping function applied, every non-empty key of at most 255 escaped bytes is storable *)
+Theorem C17_escaping_makes_keys_storable : forall cfg k, escaping cfg -> k <> [] ->
+  key_len_ok (enc_key cfg k) -> (lenN (enc_key cfg k) <=? name_max)%N = true -> exists d, storable cfg k d.
+Proof. exact escaping_storable. Qed.
+Print Assumptions C17_escaping_makes_keys_storable.
+
+(* the pinned code (no escaping) is a faithful map exactly on keys without '/', '.', NUL *)
+Theorem C17_pinned_plain_keys_storable : forall cfg k, q_no_escape cfg = true -> plain k -> key_len_ok k ->
+  (lenN k <=? name_max)%N = true -> exists d, storable cfg k d.
+Proof. exact plain_storable. Qed.
+Print Assumptions C17_pinned_plain_keys_storable.
+
+Example C17_refines_fs_hyp_satisfiable :
+  let cfg := pinned_cfg wbase R12 in
+  let ops := [ONew content1; OPut [107;101;121]%N 0; OMut 0 [1;2;3]%N; OGet [107;101;121]%N; OHas [107]%N] in
+  path_ok (f_base cfg) /\ (forall k k', enc_key cfg k = enc_key cfg k' -> k = k') /\
+  hist_ok (@Some (list N)) true spec_empty ops = true /\ Forall (op_storable cfg) ops.
+Proof.
+  assert (P : forall k, plain k -> (lenN k <=? name_max)%N = true -> key_len_ok k ->
+               exists d, storable (pinned_cfg wbase R12) k d).
+  { intros. apply plain_storable; auto. }
+  assert (PL : forall l, l <> [] -> forallb (fun b => negb (N.eqb b 47 || N.eqb b 46 || N.eqb b 0)) l = true -> plain l).
+  { intros l NE H. split; auto. apply Forall_forall. intros b Hb. rewrite forallb_forall in H.
+    specialize (H b Hb). apply negb_true_iff in H. apply orb_false_iff in H. destruct H as [H H3].
+    apply orb_false_iff in H. destruct H as [H1 H2].
+    apply N.eqb_neq in H1. apply N.eqb_neq in H2. apply N.eqb_neq in H3. repeat split; auto. }
+  split. { repeat constructor. }
+  split. { intros k k' H. exact H. }
+  split. { reflexivity. }
+  repeat constructor; unfold op_storable; simpl; auto.
+  - apply P. apply PL. discriminate. reflexivity. reflexivity. unfold key_len_ok. simpl. reflexivity.
+  - apply P. apply PL. discriminate. reflexivity. reflexivity. unfold key_len_ok. simpl. reflexivity.
+  - apply P. apply PL. discriminate. reflexivity. reflexivity. unfold key_len_ok. simpl. reflexivity.
+Qed.
 
 (* --- the code AS IT STANDS (escapingFunc stored, never applied; commit("") = abort = success)
        violates the property: witnesses by computation on the faithful model --------------------- *)
